@@ -755,6 +755,26 @@ def fam_silent_spectator(rng, n, tag="silent"):
         out.append(s)
     return out
 
+def fam_silent_spectator_burst(rng, n, tag="silentb"):
+    """a spectator that stops acknowledging while the host's confirmed frame only ever moves in jumps of several
+    frames (the remote player sends in bursts and the host runs ahead inside its window): the call in which the
+    128th unacknowledged frame is queued for the spectator queues several more - the spectator must be reported
+    Disconnected once"""
+    out = []
+    for i in range(n):
+        s = Scen("%s_%d" % (tag, i), players=2, window=rng.choice([8, 12]), lat=rng.choice([5, 10]), seed=rng.randrange(1 << 30), inputrun=2, timeout=20000, notify=5000)
+        s.p2p(1, [0], nodrain=rng.randrange(2)); s.p2p(2, [1]); s.spec(9, 1, 2)
+        t_die = rng.randrange(400, 1200)
+        s.ticks(1, 0, 6000, 16)
+        pause = rng.choice([60, 80, 100])
+        gap = rng.choice([40, 60])
+        skips = [(a, a + pause) for a in range(300 + rng.randrange(0, 50), 6000, pause + gap)]
+        s.ticks(2, 5, 6000, 8, skip=skips)
+        s.ticks(9, 7, t_die, 16)
+        s.at(t_die, "kill", 9)
+        out.append(s)
+    return out
+
 def fam_event_flood(rng, n, tag="flood"):
     """never-drained sessions that receive many events: diverging games with desync detection at a
     short interval (one DesyncDetected per report), a leading peer (WaitRecommendation), silences"""
